@@ -172,7 +172,7 @@ def run(chk):
                    "phase_order_matches_source (table regenerated from the source)"]
     chk.partial += ["signal delivery inside C calls (queue.get, join) is represented by 'interrupt at any control point' in "
                     "the plan model but can only be forced at Python-level call boundaries on the real interpreter",
-                    "the stateful phase: suite bracket proved on the thread model (stateful_suites_bracketed); scenario events inside a suite are Hypothesis-driven and covered by real runs and the reference automaton"]
+                    "the stateful phase: suite and scenario bracket proved on the machine model for every Hypothesis behaviour (stateful_thread_wellformed); a teardown that raises is outside the model (F18e)"]
     for _ in E.consumer_correspondence(chk, variant, chk.budget(200, 2500)):
         pass
     for _ in E.worker_correspondence(chk, chk.budget(80, 1000)):
@@ -181,6 +181,11 @@ def run(chk):
         pass
     for _ in E.stateful_consumer_correspondence(chk, chk.budget(25, 300)):
         pass
+    # the instrumented state machine (setup / step / validate_response / teardown) and every arm of the suite loop with
+    # its state, driven by a scripted stand-in for Hypothesis against SV/Model/StatefulMachine.lean
+    chk.variants["execute_state_machine_loop:flaky-arm"] = E.detect_flaky_variant()
+    E.stateful_machine_checks(chk, chk.budget(120, 1500), chk.budget(150, 2000), "C11")
+    E.intermittent_error_probe(chk, "C11")
     limit_probe(chk)
     ki_probes(chk)
     stop_point_runs(chk, chk.budget(3, 25))
